@@ -172,6 +172,37 @@ def subst_check(case):
     for asg in all_assignments(targets, m.orbs, limit=4, rng=random.Random(2)):
         if evaluate(term.sympy, asg, m) != evaluate(gen.sympy, asg, m):
             return False, f"substitute_with_generic changed the value of {term}: {gen}"
+    # the target set is redefined after the term has been looked at: the renaming
+    # respects the set that is valid when it is done
+    rng = random.Random(len(str(case)))
+    all_idx = sorted(set(term.idx), key=lambda s_: (s_.space, s_.name))
+    for _ in range(3):
+        new_targets = rng.sample(all_idx, rng.randint(0, len(all_idx)))
+        e2 = Expr(sym, real=True)
+        t2 = e2.terms[0]
+        if set(t2.contracted) & set(t2.target):
+            return False, f"contracted and target indices of {t2} overlap"
+        e2.set_target_idx(new_targets)
+        for generic in (False, True):
+            r2 = t2.substitute_with_generic(return_sympy=False) if generic else t2.substitute_contracted()
+            if r2.sympy is S.Zero and t2.sympy is not S.Zero:
+                return False, f"renaming of {t2} with targets {new_targets} gives zero"
+            rt2 = r2.terms[0]
+            if not set(new_targets) >= set(rt2.target) or not set(rt2.idx) >= set(new_targets):
+                return False, (f"after set_target_idx({new_targets}) the renamed term {rt2} has lost / renamed "
+                               f"a target index (generic={generic})")
+            if not generic:
+                for space in ("occ", "virt"):
+                    used = [s_.name for s_ in new_targets if s_.space == space]
+                    cont = {s_.name for s_ in set(rt2.idx) - set(new_targets) if s_.space == space}
+                    exp = set(get_lowest_avail_indices(len(cont), used, space))
+                    if cont != exp:
+                        return False, (f"after set_target_idx({new_targets}): contracted {space} indices of "
+                                       f"{rt2} are {cont}, lowest available {exp}")
+            for asg in all_assignments(list(new_targets), m.orbs, limit=3, rng=random.Random(4)):
+                if evaluate(sym, asg, m) != evaluate(r2.sympy, asg, m):
+                    return False, (f"after set_target_idx({new_targets}) the renaming (generic={generic}) changed "
+                                   f"the value of {t2}: {r2}")
     return True, ""
 
 
